@@ -139,6 +139,21 @@ def hand_items(ids):
                   Field("m", T.Map("btree", "String", T.It(plain)), [[("default", None)]])], [[("deny", None)]])
     S("HEmpty", [])
     S("HEmptyDeny", [], [[("deny", None)]])
+    # generic derive inputs (the impl header the derive assembles: parameters, their bounds, a where clause, the added
+    # `T: Deserr<E>` predicates); the model is given the instance the catalogue uses
+    TO = "crate::out::ToOut"
+    items.append(Item("HGen", "struct", attrs=[[("deny", None)], [("validate", f())]],
+                      fields=[Field("a", T.Bool, decl="T"), Field("b_list", T.Vec(T.String), [[("needs_predicate",)]], decl="Vec<U>"),
+                              Field("c", T.Option(T.Bool), [[("rename", "see")]], decl="Option<T>"), Field("d", I("u8"), [[("default", None)]])],
+                      generics=[("T", TO, T.Bool), ("U", None, T.String)], where="U: Clone + " + TO))
+    items.append(Item("HGenEnum", "enum", attrs=[[("tag", "type"), ("rename_all", "camelCase")]],
+                      variants=[Variant("WithT", [Field("x_val", T.Vec(I("u8")), decl="T")]),
+                                Variant("Other", [Field("y", T.Option(T.Vec(I("u8"))), decl="Option<T>"), Field("z", I("u8"), [[("missing", f())]])]),
+                                Variant("Plain")],
+                      generics=[("T", None, T.Vec(I("u8")))]))
+    items.append(Item("HGenNested", "struct", fields=[Field("inner", T.It(plain), decl="T"), Field("list", T.Vec(T.It(plain)), decl="Vec<T>"),
+                                                      Field("m", T.Map("btree", "String", I("i8")), decl="std::collections::BTreeMap<String, K>")],
+                      generics=[("T", None, T.It(plain)), ("K", None, I("i8"))]))
     return items
 
 
@@ -303,6 +318,18 @@ def rand_item(rng, ids, items):
         else:
             groups.append([a])
     it.attrs = groups
+    if r() < 0.2:
+        # a generic item: some fields without conversions or defaults get a type parameter as their declared type
+        plain = [fl for fl in it.all_fields() if not any(a[0] in ("from", "try_from", "map", "default", "skip") for a in fl.flat())]
+        rng.shuffle(plain)
+        for n, fl in enumerate(plain[:rng.choice([1, 1, 2])]):
+            pname = "T%d" % n
+            if fl.ty[0] in ("vec", "option", "box") and r() < 0.5:
+                fl.decl = "%s<%s>" % ({"vec": "Vec", "option": "Option", "box": "Box"}[fl.ty[0]], pname)
+                conc = fl.ty[1]
+            else:
+                fl.decl, conc = pname, fl.ty
+            it.generics.append((pname, "crate::out::ToOut" if r() < 0.5 or it.get("validate") else None, conc))
     return it
 
 
